@@ -158,32 +158,37 @@ impl DefaultMetricSearcher {
         let mut sec = 0;
         // is the next entry the first one of this index file?
         let mut first_entry = last_pos == SeekFrom::Start(0);
+        // The head of a file may hold lines of a second whose index entry is in the previous
+        // file (roll-over in the middle of a second, first second of a new day). They are
+        // wanted when they are not older than `begin` and nothing indexed here precedes `begin`.
+        let mut wanted_from_head = false;
 
         let mut reader = Cursor::new(index_data);
         while let Ok(sec_be) = ReadBytesExt::read_u64::<BigEndian>(&mut reader) {
             sec = sec_be;
             let offset_be = ReadBytesExt::read_u64::<BigEndian>(&mut reader)?;
             if sec >= begin_sec {
-                // The head of a file may hold lines of a second whose index entry is in the
-                // previous file (roll-over in the middle of a second, first second of a new
-                // day): when the wanted time precedes everything indexed here, start at 0.
-                offset = Some(if first_entry && sec > begin_sec { 0 } else { offset_be });
+                if first_entry && sec > begin_sec {
+                    wanted_from_head = true;
+                }
+                offset = Some(offset_be);
                 break;
             }
             first_entry = false;
         }
-        // An index without any entry belongs to a file that only continues the last second of
-        // the previous file: read it from the start. Otherwise nothing at or after the wanted
-        // second is indexed in this file and the caller tries the next one.
-        let offset = match offset {
-            Some(offset) => offset,
-            None if first_entry => 0,
-            None => {
-                return Err(Error::msg(
-                    "no index entry at or after the wanted second in this file",
-                ))
-            }
-        };
+        if offset.is_none() && first_entry {
+            // an index without any entry: the file only continues the previous file's last second
+            wanted_from_head = true;
+        }
+        if wanted_from_head
+            && first_line_second(filename).map_or(false, |head_sec| head_sec >= begin_sec)
+        {
+            offset = Some(0);
+        }
+        // nothing at or after the wanted second in this file: the caller tries the next one
+        let offset = offset.ok_or_else(|| {
+            Error::msg("nothing at or after the wanted second in this file")
+        })?;
 
         // Cache the idx filename and position
         cached_pos.metric_filename = filename.into();
@@ -209,4 +214,14 @@ impl DefaultMetricSearcher {
 
         Ok(sec == cached_pos.cur_sec_in_idx)
     }
+}
+
+/// The second of the first line of a metric log file, if it has one that parses.
+fn first_line_second(filename: &str) -> Option<u64> {
+    use std::io::BufRead;
+    let file = File::open(filename).ok()?;
+    let mut line = String::new();
+    std::io::BufReader::new(file).read_line(&mut line).ok()?;
+    let item = crate::base::MetricItem::from_string(line.trim_end_matches(|c| c == '\n' || c == '\r')).ok()?;
+    Some(item.timestamp / 1000)
 }
